@@ -118,7 +118,8 @@ class Outcome(object):
 
 class LoopSpec(object):
     def __init__(self, inv=(), variant=None, extra_havoc=(), assume=(),
-                 havoc_map=None):
+                 havoc_map=None, index=None):
+        self.index = index
         self.inv = list(inv)          # expression strings (named: (name, str))
         self.variant = variant
         self.extra_havoc = list(extra_havoc)
@@ -471,6 +472,14 @@ class Executor(object):
             return n
         if S.same(va, vb):
             return va
+        if isinstance(va, S.XR) or isinstance(vb, S.XR):
+            if (isinstance(va, S.XR) or S.is_num(va)) and \
+                    (isinstance(vb, S.XR) or S.is_num(vb)):
+                return S.xr_ite(c, va, vb)
+            raise _NoMerge()
+        if va is None or vb is None:
+            # Optional numeric: keep as a tagged pair
+            raise _NoMerge()
         if S.is_num(va) and S.is_num(vb):
             return S.ite(c, va, vb)
         if isinstance(va, bool) or isinstance(vb, bool) or \
@@ -562,6 +571,13 @@ class Executor(object):
                                       'needs an invariant (%s#%d)' %
                                       (self.where(node), fn, k))
                     out.extend(self.cut_loop(node, s1, spec, it))
+            elif isinstance(it, SymSeq):
+                if spec is None:
+                    raise VCError('for loop over a symbolic sequence at %s '
+                                  'needs an invariant (%s#%d)' %
+                                  (self.where(node), fn, k))
+                out.extend(self.cut_loop(node, s1, spec,
+                                         _Range(0, it.length, 1), seq=it))
             elif isinstance(it, (list, tuple)):
                 out.extend(self.unroll_for(node, s1, list(it)))
             elif isinstance(it, dict):
@@ -642,6 +658,9 @@ class Executor(object):
                 return S.fresh(hint, 'real')
             if z3.is_bool(v):
                 return S.fresh(hint, 'bool')
+        if isinstance(v, S.XR):
+            return S.XR(S.fresh(hint + '_isinf', 'bool'), S.fresh(hint,
+                                                                   'real'))
         if isinstance(v, list):
             return [self.havoc_value(x, '%s_%d' % (hint, i))
                     for i, x in enumerate(v)]
@@ -654,13 +673,22 @@ class Executor(object):
             return S.fresh(hint, 'real')
         raise VCError('cannot havoc %r' % (v,))
 
-    def cut_loop(self, node, st, spec, rng):
+    def cut_loop(self, node, st, spec, rng, seq=None):
         """Cut a loop at its head with an inductive invariant."""
         fn, k = self._loop_key(node)
         tag = '%s#%d' % (fn, k)
         is_for = isinstance(node, ast.For)
         names, attrs, subs = self.assigned_names(node.body)
-        if is_for:
+        tvar = None
+        if is_for and seq is not None:
+            # `for x in <symbolic sequence>`: a ghost index (named by the
+            # spec) runs over 0..len-1 and the target is the element at it
+            tvar = node.target
+            ivar = spec.index or '_k'
+            for e in ast.walk(tvar):
+                if isinstance(e, ast.Name):
+                    names.discard(e.id)
+        elif is_for:
             if not isinstance(node.target, ast.Name):
                 raise VCError('cut for-loop needs a simple target')
             ivar = node.target.id
@@ -761,6 +789,8 @@ class Executor(object):
         for sb in body_states:
             if not self.feasible(sb.pc):
                 continue
+            if tvar is not None:
+                self.assign(tvar, seq.elem(sb.env[ivar]), sb)
             v0 = None
             if spec.variant is not None:
                 v0 = self.eval_spec(spec.variant, sb)
@@ -990,9 +1020,10 @@ class Executor(object):
             if base.name in ('module:math', 'module:numpy', 'module:np'):
                 if a == 'pi':
                     return S.PI
-                if a in MATH_FUNCS or a in ('abs', 'inf'):
-                    if a == 'inf':
-                        return _INF
+                if a == 'inf':
+                    return S.INF
+                if a in MATH_FUNCS or a in ('abs', 'isinf', 'min', 'max',
+                                            'any', 'all'):
                     return _Builtin(a)
             return Opaque(base.name + '.' + a)
         if isinstance(base, list):
@@ -1135,6 +1166,12 @@ class Executor(object):
         if isinstance(op, ast.Sub):
             return S.sub(a, b)
         if isinstance(op, ast.Mult):
+            if isinstance(a, S.XR) and a.inf is not False and \
+                    not isinstance(b, S.XR):
+                return self.xr_scale(a, b, st, node, '*')
+            if isinstance(b, S.XR) and b.inf is not False and \
+                    not isinstance(a, S.XR):
+                return self.xr_scale(b, a, st, node, '*')
             return S.mul(a, b)
         if isinstance(op, ast.Div):
             return self.divide(a, b, st, node)
@@ -1180,7 +1217,18 @@ class Executor(object):
         st.pc.append(z3.Implies(z3.And(*self._guard), b != 0)
                      if self._guard else b != 0)
 
+    def xr_scale(self, a, b, st, node, op):
+        """a (extended real) times / divided by a finite b: +inf stays +inf,
+        which is only right for b > 0 -- a side obligation."""
+        self.oblige('xr.positive@%s' % node.lineno, st,
+                    S.cmp('>', b, 0), self.where(node), 'defined')
+        val = S.mul(a.val, b) if op == '*' else S.div(a.val, b)
+        return S.XR(a.inf, val)
+
     def divide(self, a, b, st, node):
+        if isinstance(a, S.XR) and not isinstance(b, S.XR):
+            self.nonzero(b, st, node)
+            return self.xr_scale(a, b, st, node, '/')
         self.nonzero(b, st, node)
         return S.div(a, b)
 
@@ -1235,6 +1283,11 @@ class Executor(object):
                               self.where(node))
             return S.cmp(_CMP[t], a, b)
         if t is ast.Is:
+            # Optional values modelled by a contract: `x is None` is a ghost
+            if b is None and hasattr(a, 'is_none'):
+                return a.is_none
+            if a is None and hasattr(b, 'is_none'):
+                return b.is_none
             if a is None or b is None:
                 if is_sym(a) or is_sym(b):
                     return False
@@ -1243,6 +1296,8 @@ class Executor(object):
         if t is ast.IsNot:
             return S.b_not(self.compare(ast.Is(), a, b, node))
         if t is ast.In:
+            if hasattr(b, 'sym_contains'):
+                return b.sym_contains(a)
             if isinstance(b, (list, tuple)):
                 return S.b_or(*[S.cmp('==', a, x) for x in b]) if b else False
             if isinstance(b, dict):
@@ -1271,6 +1326,20 @@ class Executor(object):
         finally:
             self._guard.pop()
         return S.ite(c, a, b)
+
+    def expr_GeneratorExp(self, node, st):
+        if len(node.generators) != 1 or node.generators[0].ifs:
+            raise VCError('generator expression')
+        g = node.generators[0]
+        it = self.eval(g.iter, st)
+        if isinstance(it, SymSeq):
+            j = S.fresh('j', 'int')
+            saved = dict(st.env)
+            self.assign(g.target, it.elem(j), st)
+            body = S.to_bool(self.eval(node.elt, st))
+            st.env = saved
+            return _SymGen(j, it.length, body)
+        return self.expr_ListComp(node, st)
 
     def expr_ListComp(self, node, st):
         if len(node.generators) != 1:
@@ -1331,6 +1400,8 @@ class Executor(object):
         return r
 
     def call(self, f, args, kwargs, st, node):
+        if isinstance(f, Native):
+            return f.fn(self, st, args, kwargs, node)
         if isinstance(f, _Builtin):
             if f.name in self.externals:
                 return self.externals[f.name](self, st, args, kwargs, node)
@@ -1465,7 +1536,18 @@ class Executor(object):
                                   fn.name)
                 for i in range(len(v)):
                     v[i] = fold([f[i] for f in finals])
-            elif isinstance(v, (SymObject, SymArray, dict)):
+            elif isinstance(v, SymObject):
+                for o in outs_ok:
+                    f = o.state.env.get(p_)
+                    if not isinstance(f, SymObject) or \
+                            set(f.attrs) - set(v.attrs) or any(
+                                not S.same(f.attrs[a_], v.attrs[a_])
+                                for a_ in f.attrs
+                                if not isinstance(f.attrs[a_], (
+                                    SymObject, SymSeq, Native, list, dict))):
+                        raise VCError('inlined callee %s forks and mutates '
+                                      'an object argument' % fn.name)
+            elif isinstance(v, (SymArray, dict)):
                 raise VCError('inlined callee %s forks with object args' %
                               fn.name)
         st.trace[:] = outs_ok[0].state.trace
@@ -1488,7 +1570,7 @@ class Executor(object):
                 return S.to_real(v)
             if isinstance(v, str):
                 if v == 'inf':
-                    return _INF
+                    return S.INF
                 return Fraction(v)
             return Fraction(v)
         if name == 'int':
@@ -1520,6 +1602,9 @@ class Executor(object):
             return _Declared(t, n)
         if name in ('sqrt',):
             v = args[0]
+            if isinstance(v, S.XR):
+                inner = self.call_builtin('sqrt', [v.val], kwargs, st, node)
+                return S.XR(v.inf, inner)
             if not is_sym(v):
                 fv = Fraction(v)
                 if fv < 0:
@@ -1601,6 +1686,17 @@ class Executor(object):
                 return o.cls is not None and self.find_method(
                     o, args[1]) is not None
             raise VCError('hasattr on %r' % (o,))
+        if name == 'isinf':
+            v = args[0]
+            if isinstance(v, S.XR):
+                return v.inf
+            return False
+        if name == 'any' or name == 'all':
+            v = args[0]
+            if isinstance(v, _SymGen):
+                return v.exists() if name == 'any' else v.forall()
+            r = [S.to_bool(x) for x in v]
+            return S.b_or(*r) if name == 'any' else S.b_and(*r)
         if name == 'c_array':
             dims = [int(a) for a in args]
             if len(dims) == 1:
@@ -1614,6 +1710,42 @@ class Executor(object):
         if name == 'ite':
             return S.ite(S.to_bool(args[0]), args[1], args[2])
         raise VCError('builtin %s at %s' % (name, self.where(node)))
+
+
+class Native(object):
+    """A callable supplied by a contract (model of an external function):
+    fn(ex, st, args, kwargs, node) -> value."""
+
+    def __init__(self, fn, name=''):
+        self.fn = fn
+        self.name = name
+
+
+class SymSeq(object):
+    """A sequence of unknown length whose element at (symbolic) index i is
+    elem(i) -- used for lists of particle arrays, equations, ..."""
+
+    def __init__(self, name, elem, length=None):
+        self.name = name
+        self.elem = elem
+        self.length = length if length is not None else z3.Int(name + '_len')
+
+
+class _SymGen(object):
+    def __init__(self, j, length, body):
+        self.j, self.length, self.body = j, length, body
+
+    def exists(self):
+        if not is_sym(self.body):
+            return S.b_and(self.body, S.cmp('>', self.length, 0))
+        return z3.Exists([self.j], z3.And(self.j >= 0, self.j < S.to_z3(
+            self.length), self.body))
+
+    def forall(self):
+        if not is_sym(self.body):
+            return S.b_or(self.body, S.cmp('<=', self.length, 0))
+        return z3.ForAll([self.j], z3.Implies(z3.And(
+            self.j >= 0, self.j < S.to_z3(self.length)), self.body))
 
 
 class _NoMerge(Exception):
@@ -1762,7 +1894,7 @@ _BUILTIN_NAMES = {'abs', 'min', 'max', 'float', 'int', 'len', 'range',
                   'print', 'bool', 'list', 'tuple', 'dict', 'sum',
                   'enumerate', 'zip', 'sorted', 'str', 'isinstance',
                   'hasattr', 'declare', 'printf', 'implies', 'ite',
-                  'c_array', 'fabs'}
+                  'c_array', 'fabs', 'isinf', 'any', 'all'}
 
 
 def _isqrt(n):
